@@ -575,7 +575,8 @@ Section Par.
   Proof. intros M Hd. rewrite (mi_ni _ _ M x), Hd. apply Hc0. Qed.
 
   Lemma BInv_step B h st n l st' :
-    BInv B h st (n :: l) -> rnp_spec st n = Ok (st', None) -> BInv B h st' l.
+    BInv B h st (n :: l) -> rnp_spec st n = Ok (st', None) ->
+    BInv B h st' l /\ (forall x, isDone st' x = true <-> isDone st x = true \/ x = n).
   Proof.
     intros [Ok P HS HK M HlB Hlnd Hl Hheap Hlt0 Hdone Hprog Hpush] H.
     destruct (rnp_fields st n st' None H) as (_ & [F1 F2 F3 F4 F5] & F & (w & Hw & Ew)).
@@ -607,6 +608,7 @@ Section Par.
     { intros x [Hx|(p & Hp & Hc)]; [left; exact Hx|]. right. exists p. rewrite Hpar. split; [exact Hp|].
       destruct (decide (p = n)) as [->|Hpn]; [|rewrite Hnd' by exact Hpn; exact Hc].
       pose proof (notdone_changed st n M Hdn). lia. }
+    split; [|exact Hd'].
     constructor.
     - apply (rnp_spec_ok_state st B h n st' None (conj Bo G) HnB H).
     - apply (rnp_spec_pass_ok st B h n st' None P (conj Bo G) HnB H).
@@ -674,13 +676,30 @@ Section Par2.
   Notation BInv := (BInv s0 h0).
   Notation origin_ok := (origin_ok s0 h0).
 
+  Definition alwaysOf (st : state) (l : list nid) : list nid :=
+    filter (fun x => isAlways (nkind (nd st x)) = true) l.
+
   Lemma BInv_run fuel B h l : forall st e al, BInv B h st l ->
-    exists st' al', rfold (block_step fuel []) l (st, e, al) = Ok (st', e, al') /\ BInv B h st' [].
+    exists st' al', rfold (block_step fuel []) l (st, e, al) = Ok (st', e, al') /\ BInv B h st' [] /\
+      al' = al ++ alwaysOf st l /\ (forall x, isDone st' x = true <-> isDone st x = true \/ x ∈ l) /\ sframe st st'.
   Proof.
-    induction l as [|n l IH]; intros st e al HB; [exists st, al; split; [reflexivity|exact HB]|].
+    induction l as [|n l IH]; intros st e al HB.
+    { exists st, al. split; [reflexivity|]. split; [exact HB|]. split; [unfold alwaysOf; rewrite filter_nil, app_nil_r; reflexivity|].
+      split; [|apply sframe_refl]. intros x. rewrite elem_of_nil. tauto. }
     destruct (step_total fuel [] B h (quiet_nil B) st e al n (bi_ok _ _ _ _ _ _ HB) (bi_lB _ _ _ _ _ _ HB n ltac:(left)))
       as (s1 & E1 & R1 & _).
-    cbn [rfold]. rewrite E1. cbn [rbind]. apply IH. apply (BInv_step s0 h0 Hc0 Hr0 B h st n l s1 HB R1).
+    destruct (BInv_step s0 h0 Hc0 Hr0 B h st n l s1 HB R1) as [HB1 Hd1].
+    destruct (rnp_fields st n s1 None R1) as (_ & _ & F1 & _).
+    destruct (IH s1 e (alw st n al) HB1) as (st' & al' & E & HB' & Hal & Hd & F).
+    exists st', al'. cbn [rfold]. rewrite E1. cbn [rbind]. split; [exact E|]. split; [exact HB'|].
+    split; [|split; [|eapply sframe_trans; eassumption]].
+    - rewrite Hal. unfold alwaysOf, alw. rewrite filter_cons.
+      assert (filter (fun x => isAlways (nkind (nd s1 x)) = true) l = filter (fun x => isAlways (nkind (nd st x)) = true) l) as ->.
+      { apply list_filter_iff. intros x. rewrite (sf_nkind _ _ F1). reflexivity. }
+      destruct (isAlways (nkind (nd st n))) eqn:Ek.
+      + rewrite decide_True by reflexivity. rewrite <- app_assoc. reflexivity.
+      + rewrite decide_False by discriminate. reflexivity.
+    - intros x. rewrite Hd, Hd1, elem_of_cons. tauto.
   Qed.
 
   Record PInv (st : state) (lb : Z) : Prop := {
@@ -742,14 +761,17 @@ Section Par2.
     - intros p c Hp Hcp Hc. destruct (Hpush p c Hp Hcp Hc) as [?|[?|Hn]]; auto. inv Hn.
   Qed.
 
-  Lemma parLoop_inv fuel : forall st lb al, PInv st lb -> (mu st lb < fuel)%nat ->
-    exists sL lbL al', parLoop fuel [] st al = Ok (sL, None, al') /\ PInv sL lbL /\ Heap.ids (heap sL) = [] /\ sframe st sL.
+  Definition AL (st : state) (al : list nid) : Prop :=
+    forall x, x ∈ al <-> isDone st x = true /\ isAlways (nkind (nd st x)) = true.
+
+  Lemma parLoop_inv fuel : forall st lb al, PInv st lb -> AL st al -> (mu st lb < fuel)%nat ->
+    exists sL lbL al', parLoop fuel [] st al = Ok (sL, None, al') /\ PInv sL lbL /\ Heap.ids (heap sL) = [] /\ sframe st sL /\ AL sL al'.
   Proof.
-    induction fuel as [|fuel IH]; intros st lb al PI Hmu; [lia|].
+    induction fuel as [|fuel IH]; intros st lb al PI HAL Hmu; [lia|].
     rewrite <- parLoopS_queue_order. cbn [parLoopS].
     pose proof (po_heap _ (pi_pass _ _ PI)) as I.
     destruct (Z.leb_spec (Heap.cnt (heap st)) 0) as [Hc|Hc].
-    { exists st, lb, al. split; [reflexivity|]. split; [exact PI|]. split; [apply cnt_zero_ids; assumption|apply sframe_refl]. }
+    { exists st, lb, al. split; [reflexivity|]. split; [exact PI|]. split; [apply cnt_zero_ids; assumption|]. split; [apply sframe_refl|exact HAL]. }
     destruct (Heap.takeMinBlock (heap st)) as [b w] eqn:Et.
     assert (Hbne : b <> []).
     { destruct (heap_takeMinBlock_spec _ _ _ I Et) as (_ & _ & _ & _ & Hnil & _). intros E. apply Hnil in E.
@@ -758,23 +780,15 @@ Section Par2.
     set (sw := st <| heap := w |>) in *.
     destruct (parts_nolhs sw b (po_nolhs _ (bi_pass _ _ _ _ _ _ HB))) as [L1 L2]. rewrite L1, L2. cbn [app].
     unfold queue_order, run_block_acc.
-    destruct (BInv_run fuel b h b sw None al HB) as (st' & al' & E & HB').
+    destruct (BInv_run fuel b h b sw None al HB) as (st' & al' & E & HB' & Hal' & Hd' & Fb).
     rewrite E. cbn [rbind]. rewrite parLoopS_queue_order.
     pose proof (BInv_end b h st' HB') as PI'.
-    assert (F : sframe st st').
-    { pose proof (bi_struct _ _ _ _ _ _ HB'). clear -E HB. revert E. generalize (bi_ok _ _ _ _ _ _ HB).
-      generalize (bi_lB _ _ _ _ _ _ HB). intros HlB Ok0.
-      assert (Hgen : forall l t e0 a0 t' a', (forall x, x ∈ l -> x ∈ b) -> ok_state t b h ->
-                rfold (block_step fuel []) l (t, e0, a0) = Ok (t', e0, a') -> sframe t t').
-      { induction l as [|n l IHl]; intros t e0 a0 t' a' Hl Okt Hr.
-        - injection Hr as <- <-. apply sframe_refl.
-        - destruct (step_total fuel [] b h (quiet_nil b) t e0 a0 n Okt (Hl n ltac:(left))) as (t1 & E1 & R1 & Ok1).
-          cbn [rfold] in Hr. rewrite E1 in Hr. cbn [rbind] in Hr.
-          destruct (rnp_fields t n t1 None R1) as (_ & _ & F1 & _).
-          eapply sframe_trans; [exact F1|]. eapply IHl; [|exact Ok1|exact Hr]. intros; apply Hl; right; assumption. }
-      intros E. eapply sframe_trans; [apply (sframe_set_heap st w)|]. eapply Hgen; [exact HlB|exact Ok0|exact E]. }
-    destruct (IH st' (h + 1) al' PI') as (sL & lbL & alL & EL & PL & HeL & FL).
-    2: { exists sL, lbL, alL. split; [exact EL|]. split; [exact PL|]. split; [exact HeL|]. eapply sframe_trans; eassumption. }
+    assert (F : sframe st st') by (eapply sframe_trans; [apply (sframe_set_heap st w)|exact Fb]).
+    assert (HAL' : AL st' al').
+    { intros x. rewrite Hal', elem_of_app, (HAL x), Hd', (sf_nkind _ _ F). unfold alwaysOf.
+      rewrite elem_of_list_filter. change (nd sw x) with (nd st x). change (isDone sw x) with (isDone st x). tauto. }
+    destruct (IH st' (h + 1) al' PI' HAL') as (sL & lbL & alL & EL & PL & HeL & FL & ALL).
+    2: { exists sL, lbL, alL. split; [exact EL|]. split; [exact PL|]. split; [exact HeL|]. split; [eapply sframe_trans; eassumption|exact ALL]. }
     unfold mu in *. rewrite (sf_next _ _ F).
     eapply Nat.lt_le_trans; [|apply Nat.lt_succ_r, Hmu].
     apply filter_length_lt.
@@ -1030,18 +1044,33 @@ Proof.
   - exfalso. destruct Hh as [_ Hh]. destruct Hh as [? ?]; [eauto|discriminate].
 Qed.
 
-(** ** C04, first sentence, bind-free fragment, fault-free and write-free plan *)
-Theorem serial_parallel_agree s s1 :
-  wfb s = true -> ValInv s -> stabilize [] false s = Ok (s1, None) ->
-  exists s2, parStabilize [] s = Ok (s2, None) /\
-    nodes s1 = nodes s2 /\ obs s1 = obs s2 /\ reg s1 = reg s2 /\ numNodes s1 = numNodes s2 /\
-    binds s1 = binds s2 /\ next s1 = next s2 /\ stabNum s1 = stabNum s2 /\ status s1 = status s2 /\
-    handlers s1 = handlers s2 /\ updEvents s1 = updEvents s2.
+(** * L. What a pass (serial or parallel) leaves behind, and when two passes agree *)
+Record PassRes (s sE : state) : Prop := {
+  pr_ex : exists sL X,
+    Fin (passStart s) (Heap.ids (heap s)) sL /\ MyInv (passStart s) sL /\ sframe (passStart s) sL /\
+    only_heap sL X /\ sE = finish X /\ HeapSpec.inv (heap X) /\
+    (forall x, x ∈ Heap.ids (heap X) <-> inGraph (nd sL x) = true /\ isAlways (nkind (nd sL x)) = true) /\
+    (forall x, x ∈ Heap.ids (heap X) -> Heap.hinOf (heap X) x = height (nd sL x)) /\
+    cursor_ok (heap X)
+}.
+
+Lemma addAll_cursor hf l : forall w w', HeapSpec.inv w -> (forall c, c ∈ l -> 0 <= hf c) -> cursor_ok w ->
+  addAll hf l w = Ok w' -> cursor_ok w'.
+Proof.
+  induction l as [|c l IH]; intros w w' I Hh C H; [injection H as <-; exact C|].
+  rewrite addAll_cons in H. apply rbind_ok in H as (w1 & H1 & H2).
+  assert (Hl : forall c0, c0 ∈ l -> 0 <= hf c0) by (intros; apply Hh; right; assumption).
+  unfold Heap.addIfNotPresent in H1. destruct (Heap.mem w c) eqn:Em.
+  - injection H1 as <-. apply (IH _ _ I Hl C H2).
+  - destruct (heap_add_spec w c (hf c) I Em (Hh c ltac:(left))) as (w1' & A1 & I1 & _).
+    rewrite A1 in H1. injection H1 as <-. apply (IH _ _ I1 Hl (cursor_add _ _ _ _ I C A1) H2).
+Qed.
+
+Lemma serial_PassRes s s1 : wfb s = true -> ValInv s -> stabilize [] false s = Ok (s1, None) -> PassRes s s1.
 Proof.
   intros Hwf V H. destruct (wfb_transients s Hwf) as (Hst & Hsd & Hsr & Hh).
   set (s0 := passStart s). set (h0 := Heap.ids (heap s)).
-  pose proof (start_c0 s Hwf V) as Hc0. pose proof (start_r0 s Hwf V) as Hr0. fold s0 in Hc0, Hr0.
-  (* the serial pass *)
+  pose proof (start_c0 s Hwf V) as Hc0. fold s0 in Hc0.
   destruct (stabilize_unfold s s1 Hst H) as (sL1 & at_ & al1 & sR1 & EL1 & ER1 & EE1). fold s0 in EL1.
   destruct (serial_loop s0 h0 (EvPassStart :: log s) Hc0 _ s0 [] sL1 None at_ al1 (start_Struct s Hwf V)
               (LInv_start s Hwf V) (start_MyInv s Hwf V) EL1) as (_ & HS1 & L1 & M1 & He1 & F1).
@@ -1051,46 +1080,163 @@ Proof.
   { rewrite (oh_setDuring _ _ OR1), (oh_setRemoved _ _ OR1), (sf_setDuring _ _ F1), (sf_setRemoved _ _ F1). auto. }
   rewrite (stabilizeEnd_char sR1 None (proj1 Hsd1) (proj2 Hsd1)) in EE1. injection EE1 as Es1.
   fold (finish sR1) in Es1.
-  (* the parallel pass *)
-  destruct (parLoop_inv s0 h0 Hc0 Hr0 (passFuel s0) s0 0 [] (start_PInv s Hwf V) (start_mu s Hwf))
-    as (sL2 & lb2 & al2 & EL2 & P2 & He2 & F2).
+  destruct (pass_end s s1 Hwf V H) as (sL' & hev & E).
+  destruct (pe_heap _ _ _ _ E) as (Ih & Hids & Hhin & Hcur).
+  assert (Hnd : forall x, nd sL' x = nd sL1 x).
+  { intros x. apply ParProofs.nd_ext. rewrite <- (pe_nodes _ _ _ _ E), <- Es1. cbn. apply (oh_nodes _ _ OR1). }
+  assert (Hheap : heap s1 = heap sR1) by (rewrite <- Es1; reflexivity).
+  constructor. exists sL1, sR1. split; [exact Fin1|]. split; [exact M1|]. split; [exact F1|]. split; [exact OR1|].
+  split; [symmetry; exact Es1|]. rewrite <- Hheap. split; [exact Ih|]. split; [|split; [|exact Hcur]].
+  - intros x. rewrite (Hids x), (Hnd x). reflexivity.
+  - intros x Hx. rewrite (Hhin x Hx), (Hnd x). reflexivity.
+Qed.
+
+Lemma always_queued s x : ValInv s -> inGraph (nd s x) = true -> isAlways (nkind (nd s x)) = true -> inHeap s x = true.
+Proof.
+  intros V Hg Hk. apply (vi_owed _ V x Hg). unfold isStale. rewrite (bf_valid s (vi_bf _ V)).
+  destruct (nkind (nd s x)); try discriminate Hk. reflexivity.
+Qed.
+
+Lemma parallel_PassRes s : wfb s = true -> ValInv s -> exists s2, parStabilize [] s = Ok (s2, None) /\ PassRes s s2.
+Proof.
+  intros Hwf V. destruct (wfb_transients s Hwf) as (Hst & Hsd & Hsr & Hh).
+  set (s0 := passStart s). set (h0 := Heap.ids (heap s)).
+  pose proof (start_c0 s Hwf V) as Hc0. pose proof (start_r0 s Hwf V) as Hr0. fold s0 in Hc0, Hr0.
+  assert (HAL0 : AL s0 []).
+  { intros x. rewrite elem_of_nil. pose proof (start_notdone s Hwf V x) as Hd. fold s0 in Hd. rewrite Hd. split; [tauto|intros [? _]; discriminate]. }
+  destruct (parLoop_inv s0 h0 Hc0 Hr0 (passFuel s0) s0 0 [] (start_PInv s Hwf V) HAL0 (start_mu s Hwf))
+    as (sL2 & lb2 & al2 & EL2 & P2 & He2 & F2 & AL2).
   pose proof (parallel_Fin s0 h0 Hc0 sL2 lb2 F2 P2 He2) as Fin2.
-  destruct (addAll_total (fun c => height (nd sL2 c)) (filter (fun n => height (nd sL2 n) <> unset) al2) (heap sL2)) as [w2 Hw2].
-  { intros c [Hc _]%elem_of_list_filter. pose proof (po_hrange _ (pi_pass _ _ _ _ P2) c). unfold unset in Hc. lia. }
+  pose proof (pi_struct _ _ _ _ P2) as HS2.
+  assert (Hal_reg : forall x, x ∈ al2 -> inGraph (nd sL2 x) = true).
+  { intros x Hx. apply AL2 in Hx as [Hd _]. apply (pi_done _ _ _ _ P2 x Hd). }
+  assert (Hfil : filter (fun n => height (nd sL2 n) <> unset) al2 = al2).
+  { apply filter_id. intros x Hx. pose proof (st_hnonneg _ HS2 x (Hal_reg x Hx)). unfold unset. lia. }
+  assert (Hpos : forall c, c ∈ al2 -> 0 <= height (nd sL2 c)) by (intros c Hc; apply (st_hnonneg _ HS2 c (Hal_reg c Hc))).
+  destruct (addAll_total (fun c => height (nd sL2 c)) al2 (heap sL2) Hpos) as [w2 Hw2].
   set (X2 := sL2 <| heap := w2 |>).
   assert (Hsd2 : setDuring X2 = [] /\ setRemoved X2 = []).
   { change (setDuring sL2 = [] /\ setRemoved sL2 = []). rewrite (sf_setDuring _ _ F2), (sf_setRemoved _ _ F2). auto. }
   exists (finish X2). split.
   { unfold parStabilize. rewrite Hst. cbn [negb Z.eqb]. fold (passStart s). fold s0. rewrite EL2. cbn [rbind].
-    rewrite requeue_char, Hw2. cbn [rbind]. fold X2.
+    rewrite requeue_char, Hfil, Hw2. cbn [rbind]. fold X2.
     rewrite (stabilizeEnd_char X2 None (proj1 Hsd2) (proj2 Hsd2)). reflexivity. }
-  (* the two loop states agree *)
-  pose proof (final_unique s0 h0 (start_Struct s Hwf V) (BF_KA _ (start_BF s V)) sL1 sL2 Fin1 Fin2) as Hnd.
-  assert (Hk12 : stabNum sL1 = stabNum sL2) by (rewrite (mi_k _ _ M1), (mi_k _ _ (pi_my _ _ _ _ P2)); reflexivity).
-  assert (Hn12 : nodes sL1 = nodes sL2).
-  { apply nodes_unique; [|exact Hnd]. intros x. rewrite (sf_has _ _ F1 x), (sf_has _ _ F2 x). reflexivity. }
-  assert (Hh12 : handlers sL1 = handlers sL2).
-  { apply (handlers_unique s0); [apply (mi_hi _ _ M1)|apply (mi_hi _ _ (pi_my _ _ _ _ P2))|exact Hnd|exact Hk12]. }
-  rewrite <- Es1.
-  assert (HnR : nodes sR1 = nodes sL1) by apply (oh_nodes _ _ OR1).
-  assert (HoR : obs sR1 = obs sL1) by apply (oh_obs _ _ OR1).
-  assert (Ho12 : obs sR1 = obs X2).
-  { rewrite HoR. change (obs X2) with (obs sL2). rewrite (sf_obs _ _ F1), (sf_obs _ _ F2). reflexivity. }
-  split; [cbn; rewrite HnR; exact Hn12|].
-  split; [exact Ho12|].
-  split; [cbn; rewrite (oh_reg _ _ OR1), (sf_reg _ _ F1), (sf_reg _ _ F2); reflexivity|].
-  split; [cbn; rewrite (oh_numNodes _ _ OR1), (sf_numNodes _ _ F1), (sf_numNodes _ _ F2); reflexivity|].
-  split; [cbn; rewrite (oh_binds _ _ OR1), (sf_binds _ _ F1), (sf_binds _ _ F2); reflexivity|].
-  split; [cbn; rewrite (oh_next _ _ OR1), (sf_next _ _ F1), (sf_next _ _ F2); reflexivity|].
-  split; [cbn; change (stabNum X2) with (stabNum sL2); rewrite (oh_stabNum _ _ OR1); f_equal; exact Hk12|].
-  split; [reflexivity|]. split; [reflexivity|].
-  rewrite !updEvents_finish.
-  assert (updEvents sR1 = updEvents X2) as ->.
-  { unfold updEvents. rewrite (oh_log _ _ OR1). change (log X2) with (log sL2).
-    fold (updEvents sL1). fold (updEvents sL2). rewrite (mi_ui _ _ M1), (mi_ui _ _ (pi_my _ _ _ _ P2)). reflexivity. }
-  f_equal. f_equal. rewrite (oh_handlers _ _ OR1). change (handlers X2) with (handlers sL2). rewrite Hh12.
-  apply map_ext. intros k. symmetry. apply handlerEv_ext; [|symmetry; exact Ho12].
-  change (nodes X2) with (nodes sL2). rewrite HnR. symmetry. exact Hn12.
+  pose proof (po_heap _ (pi_pass _ _ _ _ P2)) as I2.
+  destruct (addAll_inv _ _ _ _ I2 Hpos Hw2) as (Iw & Hnew).
+  constructor. exists sL2, X2. split; [exact Fin2|]. split; [exact (pi_my _ _ _ _ P2)|]. split; [exact F2|].
+  assert (Hcur : cursor_ok w2).
+  { apply (addAll_cursor _ _ _ _ I2 Hpos); [|exact Hw2]. intros Hp. rewrite (inv_cnt _ I2), He2 in Hp. cbn in Hp. lia. }
+  split; [apply only_heap_set|]. split; [reflexivity|]. split; [exact Iw|]. split; [|split; [|exact Hcur]].
+  - intros x. change (heap X2) with w2. rewrite (addAll_ids _ _ _ _ I2 Hpos Hw2 x), He2, elem_of_nil, (AL2 x). split.
+    + intros [[]|[Hd Hk]]. split; [apply (pi_done _ _ _ _ P2 x Hd)|exact Hk].
+    + intros [Hg Hk]. right. split; [|exact Hk].
+      assert (Hin : x ∈ h0).
+      { apply inHeap_iff0; [apply (wfb_queued s Hwf)|]. apply (always_queued s x V).
+        - change (nd s x) with (nd s0 x). rewrite <- (sf_inGraph _ _ F2 x). exact Hg.
+        - change (nd s x) with (nd s0 x). rewrite <- (sf_nkind _ _ F2 x). exact Hk. }
+      destruct (pi_prog _ _ _ _ P2 x Hin) as [?|Hq]; [assumption|]. rewrite He2 in Hq. inversion Hq.
+  - intros x Hx. change (heap X2) with w2 in *. destruct (Hnew x Hx) as [[Hx0 _]|[_ E]]; [rewrite He2 in Hx0; inversion Hx0|exact E].
+Qed.
+
+(** two passes (serial or parallel, in any combination) from states with the same node records,
+    pass number, observers and queued SET end in states that agree on everything but the layout
+    of the heap and the order of the log *)
+Record ObsEq (e1 e2 : state) : Prop := {
+  oe_nodes : nodes e1 = nodes e2;
+  oe_binds : binds e1 = binds e2;
+  oe_next : next e1 = next e2;
+  oe_reg : reg e1 = reg e2;
+  oe_obs : obs e1 = obs e2;
+  oe_adj : adj e1 = adj e2;
+  oe_invq : invq e1 = invq e2;
+  oe_stabNum : stabNum e1 = stabNum e2;
+  oe_status : status e1 = status e2;
+  oe_numNodes : numNodes e1 = numNodes e2;
+  oe_setDuring : setDuring e1 = setDuring e2;
+  oe_setRemoved : setRemoved e1 = setRemoved e2;
+  oe_handlers : handlers e1 = handlers e2;
+  oe_maxHeight : maxHeight e1 = maxHeight e2;
+  oe_upd : updEvents e1 = updEvents e2;
+  oe_queued : forall x, x ∈ Heap.ids (heap e1) <-> x ∈ Heap.ids (heap e2)
+}.
+
+Lemma ObsEq_refl s : ObsEq s s.
+Proof. constructor; reflexivity. Qed.
+
+Lemma Fin_ext s0 s0' h0 h0' t : (forall x, nd s0' x = nd s0 x) -> stabNum s0' = stabNum s0 ->
+  (forall x, x ∈ h0' <-> x ∈ h0) -> Fin s0 h0 t -> Fin s0' h0' t.
+Proof.
+  intros Hnd Hk Hh [F1 F2 F3]. constructor.
+  - congruence.
+  - intros n. rewrite (F2 n), Hk, Hnd. reflexivity.
+  - intros x. rewrite (F3 x). unfold Owed. rewrite Hk, !Hnd. setoid_rewrite Hh. reflexivity.
+Qed.
+
+Lemma HI_ext s0 s0' t : (forall x, nd s0' x = nd s0 x) -> stabNum s0' = stabNum s0 -> HI s0 t -> HI s0' t.
+Proof.
+  intros Hnd Hk [H1 H2]. split; [exact H1|]. intros x. rewrite (H2 x), Hk. setoid_rewrite Hnd. reflexivity.
+Qed.
+
+Theorem PassRes_agree sA sB eA eB :
+  wfb sA = true -> ValInv sA -> ObsEq sA sB -> PassRes sA eA -> PassRes sB eB -> ObsEq eA eB.
+Proof.
+  intros Hwf V Q [(LA & XA & FinA & MA & FA & OA & -> & IA & HidsA & HhinA & _)] [(LB & XB & FinB & MB & FB & OB & -> & IB & HidsB & HhinB & _)].
+  set (s0 := passStart sA) in *. set (s0' := passStart sB) in *.
+  assert (Hnd0 : forall x, nd s0 x = nd s0' x) by (intros x; apply ParProofs.nd_ext, (oe_nodes _ _ Q)).
+  assert (Hk0 : stabNum s0 = stabNum s0') by apply (oe_stabNum _ _ Q).
+  pose proof (Fin_ext s0' s0 _ (Heap.ids (heap sA)) LB Hnd0 Hk0 (oe_queued _ _ Q) FinB) as FinB'.
+  pose proof (final_unique s0 _ (start_Struct sA Hwf V) (BF_KA _ (start_BF sA V)) LA LB FinA FinB') as Hnd.
+  assert (Hk : stabNum LA = stabNum LB) by (rewrite (mi_k _ _ MA), (mi_k _ _ MB); exact Hk0).
+  assert (Hn : nodes LA = nodes LB).
+  { apply nodes_unique; [|exact Hnd]. intros x. rewrite (sf_has _ _ FA x), (sf_has _ _ FB x).
+    unfold has. change (nodes s0) with (nodes sA). change (nodes s0') with (nodes sB). rewrite (oe_nodes _ _ Q). reflexivity. }
+  assert (Hh : handlers LA = handlers LB).
+  { apply (handlers_unique s0); [apply (mi_hi _ _ MA)|apply (HI_ext s0' s0 LB Hnd0 Hk0), (mi_hi _ _ MB)|exact Hnd|exact Hk]. }
+  assert (Ho : obs LA = obs LB) by (rewrite (sf_obs _ _ FA), (sf_obs _ _ FB); apply (oe_obs _ _ Q)).
+  assert (HnX : nodes XA = nodes XB) by (rewrite (oh_nodes _ _ OA), (oh_nodes _ _ OB); exact Hn).
+  assert (HoX : obs XA = obs XB) by (rewrite (oh_obs _ _ OA), (oh_obs _ _ OB); exact Ho).
+  constructor.
+  - cbn; exact HnX.
+  - cbn; rewrite (oh_binds _ _ OA), (oh_binds _ _ OB), (sf_binds _ _ FA), (sf_binds _ _ FB). apply (oe_binds _ _ Q).
+  - cbn; rewrite (oh_next _ _ OA), (oh_next _ _ OB), (sf_next _ _ FA), (sf_next _ _ FB). apply (oe_next _ _ Q).
+  - cbn; rewrite (oh_reg _ _ OA), (oh_reg _ _ OB), (sf_reg _ _ FA), (sf_reg _ _ FB). apply (oe_reg _ _ Q).
+  - cbn; exact HoX.
+  - cbn; rewrite (oh_adj _ _ OA), (oh_adj _ _ OB), (sf_adj _ _ FA), (sf_adj _ _ FB). apply (oe_adj _ _ Q).
+  - cbn; rewrite (oh_invq _ _ OA), (oh_invq _ _ OB), (sf_invq _ _ FA), (sf_invq _ _ FB). apply (oe_invq _ _ Q).
+  - cbn; rewrite (oh_stabNum _ _ OA), (oh_stabNum _ _ OB), Hk. reflexivity.
+  - cbn; reflexivity.
+  - cbn; rewrite (oh_numNodes _ _ OA), (oh_numNodes _ _ OB), (sf_numNodes _ _ FA), (sf_numNodes _ _ FB). apply (oe_numNodes _ _ Q).
+  - cbn; reflexivity.
+  - cbn; reflexivity.
+  - cbn; reflexivity.
+  - cbn; rewrite (oh_maxHeight _ _ OA), (oh_maxHeight _ _ OB), (sf_maxHeight _ _ FA), (sf_maxHeight _ _ FB). apply (oe_maxHeight _ _ Q).
+  - rewrite !updEvents_finish. f_equal.
+    + f_equal. rewrite (oh_handlers _ _ OA), (oh_handlers _ _ OB), Hh. apply map_ext. intros k.
+      apply handlerEv_ext; [exact HnX|exact HoX].
+    + unfold updEvents. rewrite (oh_log _ _ OA), (oh_log _ _ OB). fold (updEvents LA). fold (updEvents LB).
+      rewrite (mi_ui _ _ MA), (mi_ui _ _ MB). unfold updEvents. cbn. apply (oe_upd _ _ Q).
+  - intros x. change (heap (finish XA)) with (heap XA). change (heap (finish XB)) with (heap XB).
+    rewrite (HidsA x), (HidsB x), (Hnd x). reflexivity.
+Qed.
+
+(** ** C04, first sentence, bind-free fragment, fault-free and write-free plan *)
+Theorem serial_parallel_obs s s1 :
+  wfb s = true -> ValInv s -> stabilize [] false s = Ok (s1, None) ->
+  exists s2, parStabilize [] s = Ok (s2, None) /\ ObsEq s1 s2.
+Proof.
+  intros Hwf V H. destruct (parallel_PassRes s Hwf V) as (s2 & H2 & R2).
+  exists s2. split; [exact H2|]. apply (PassRes_agree s s s1 s2 Hwf V (ObsEq_refl s) (serial_PassRes s s1 Hwf V H) R2).
+Qed.
+
+Theorem serial_parallel_agree s s1 :
+  wfb s = true -> ValInv s -> stabilize [] false s = Ok (s1, None) ->
+  exists s2, parStabilize [] s = Ok (s2, None) /\
+    nodes s1 = nodes s2 /\ obs s1 = obs s2 /\ reg s1 = reg s2 /\ numNodes s1 = numNodes s2 /\
+    binds s1 = binds s2 /\ next s1 = next s2 /\ stabNum s1 = stabNum s2 /\ status s1 = status s2 /\
+    handlers s1 = handlers s2 /\ updEvents s1 = updEvents s2.
+Proof.
+  intros Hwf V H. destruct (serial_parallel_obs s s1 Hwf V H) as (s2 & H2 & Q). exists s2. split; [exact H2|].
+  destruct Q. auto 12.
 Qed.
 
 (** ... and against every fair schedule of the parallel pass *)
@@ -1111,19 +1257,4 @@ Qed.
 
 (** the parallel pass of the fragment always succeeds: no fuel or crash escape *)
 Theorem parallel_pass_total s : wfb s = true -> ValInv s -> exists s2, parStabilize [] s = Ok (s2, None).
-Proof.
-  intros Hwf V. destruct (wfb_transients s Hwf) as (Hst & Hsd & Hsr & Hh).
-  set (s0 := passStart s). set (h0 := Heap.ids (heap s)).
-  pose proof (start_c0 s Hwf V) as Hc0. pose proof (start_r0 s Hwf V) as Hr0. fold s0 in Hc0, Hr0.
-  destruct (parLoop_inv s0 h0 Hc0 Hr0 (passFuel s0) s0 0 [] (start_PInv s Hwf V) (start_mu s Hwf))
-    as (sL2 & lb2 & al2 & EL2 & P2 & He2 & F2).
-  destruct (addAll_total (fun c => height (nd sL2 c)) (filter (fun n => height (nd sL2 n) <> unset) al2) (heap sL2)) as [w2 Hw2].
-  { intros c [Hc _]%elem_of_list_filter. pose proof (po_hrange _ (pi_pass _ _ _ _ P2) c). unfold unset in Hc. lia. }
-  set (X2 := sL2 <| heap := w2 |>).
-  assert (Hsd2 : setDuring X2 = [] /\ setRemoved X2 = []).
-  { change (setDuring sL2 = [] /\ setRemoved sL2 = []). rewrite (sf_setDuring _ _ F2), (sf_setRemoved _ _ F2). auto. }
-  exists (finish X2).
-  unfold parStabilize. rewrite Hst. cbn [negb Z.eqb]. fold (passStart s). fold s0. rewrite EL2. cbn [rbind].
-  rewrite requeue_char, Hw2. cbn [rbind]. fold X2.
-  rewrite (stabilizeEnd_char X2 None (proj1 Hsd2) (proj2 Hsd2)). reflexivity.
-Qed.
+Proof. intros Hwf V. destruct (parallel_PassRes s Hwf V) as (s2 & H2 & _). eauto. Qed.
